@@ -16,15 +16,15 @@ def main():
         mod = importlib.import_module('sa.rules.%s' % prop.lower())
         ctx = Ctx(repo, 'quick', 0)
         results = mod.run(ctx)
-        known = {k['key'] for k in report.load_known().get('findings', [])
-                 if k.get('property') == prop or prop in k.get('also', [])}
+        entries = report.known_for(prop)
         for r in results:
             if r.instances < r.floor:
                 raise AnalysisError('floor %s: %d < %d' % (
                     r.rule, r.instances, r.floor))
             for f in r.findings:
                 out['findings'].append({
-                    'rule': f.rule, 'key': f.key, 'known': f.key in known,
+                    'rule': f.rule, 'key': f.key,
+                    'known': report.match_known(f, entries) is not None,
                     'message': f.message[:300]})
         if any(not f['known'] for f in out['findings']):
             out['code'] = 1
